@@ -360,7 +360,7 @@ def contracts(engine, st: State, id_types: typing.List[str]) -> typing.List[Cont
     for tag, lst, lang_re in lists:
         engine.c09_lists[id(lst)] = tag
         reg(Contract(result=SBool, target=T + "_matches", params={"self": S(), "input_string": SStr, "patterns": VConst(("py", lst))}, loops={0: Loop(unroll=True)},
-                     ensures=[("true-iff-some-entry-equals-or-matches", f"result == {mem('input_string', lang_re)}")], label=f"{lang}:{tag}", timeout=60), f"TokenEncoder._matches[{tag}]")
+                     ensures=[("true-iff-some-entry-equals-or-matches", f"result == {mem('input_string', lang_re)}")], label=f"{lang}:{tag}", timeout=150), f"TokenEncoder._matches[{tag}]")
     # _strop_by_keyword ---------------------------------------------------------------------------------------------------------
     wrap = lambda x: f"'{st.pre}' + {x} + '{st.suf}'"  # noqa: E731
     kw = lambda x: mem(x, st.KW)  # noqa: E731
@@ -393,7 +393,7 @@ def contracts(engine, st: State, id_types: typing.List[str]) -> typing.List[Cont
                ("non-empty-stays-non-empty", "implies(not dry_run and len(token) > 0, len(result) > 0)")]
         ens += encode_extra(st, mem)
         reg(Contract(result=SStr, target=T + "_encode", params={"self": S(), "token": SStr, "token_type": VStr(str_lit(k)), "dry_run": SBool},
-                     raises=[Raises("RuntimeError", f"dry_run and {mem('token', RM)}")], ensures=ens, loops={0: Loop(unroll=True)}, label=f"{lang}:{k}", timeout=60), f"TokenEncoder._encode[{k}]")
+                     raises=[Raises("RuntimeError", f"dry_run and {mem('token', RM)}")], ensures=ens, loops={0: Loop(unroll=True)}, label=f"{lang}:{k}", timeout=150), f"TokenEncoder._encode[{k}]")
     # _do_for_type_and_all per transform and requested type ---------------------------------------------------------------------
     def bm(name):
         return lambda ctx, hint: VConst(("method", ctx.env["self"], name))
@@ -419,7 +419,7 @@ def contracts(engine, st: State, id_types: typing.List[str]) -> typing.List[Cont
                    ("non-empty-stays-non-empty", "implies(not dry_run and len(token) > 0, len(result) > 0)")] + encode_extra(st, mem)
             rai = [Raises("RuntimeError", f"dry_run and {mem('token', union(rm))}")]
         reg(Contract(result=SStr, target=T + "_do_for_type_and_all", params={"self": S(), "transform": bm("_encode"), "token": SStr, "token_type": VStr(str_lit(t)), "dry_run": SBool},
-                     raises=rai, ensures=ens, label=f"{lang}:_encode,{t}", timeout=60), f"TokenEncoder._do_for_type_and_all[_encode,{t}]")
+                     raises=rai, ensures=ens, label=f"{lang}:_encode,{t}", timeout=150), f"TokenEncoder._do_for_type_and_all[_encode,{t}]")
         # -- _strop_by_keyword (applied for 'all' and again for the type: the keyword list is the same)
         res = S1(S1("token")) if two else S1("token")
         reg(Contract(result=SStr, target=T + "_do_for_type_and_all", params={"self": S(), "transform": bm("_strop_by_keyword"), "token": SStr, "token_type": VStr(str_lit(t)), "dry_run": SBool},
@@ -428,7 +428,7 @@ def contracts(engine, st: State, id_types: typing.List[str]) -> typing.List[Cont
                               ("identifier-characters-are-preserved", f"implies({mem('token', okstar)}, {mem('result', okstar)})"),
                               ("non-empty-identifier-characters-are-preserved", f"implies({mem('token', OKPLUS)}, {mem('result', OKPLUS)})"),
                               ("identifiers-stay-identifiers", f"implies({mem('token', IDENT)}, {mem('result', IDENT)})")],
-                     label=f"{lang}:_strop_by_keyword,{t}", timeout=60), f"TokenEncoder._do_for_type_and_all[_strop_by_keyword,{t}]")
+                     label=f"{lang}:_strop_by_keyword,{t}", timeout=150), f"TokenEncoder._do_for_type_and_all[_strop_by_keyword,{t}]")
         # -- _strop_by_pattern
         Pa, Pt = st.PAT("all"), (st.PAT(t) if two else None)
         r1 = f"ite({mem('token', Pa)}, {wrap('token')}, token)" if Pa is not None else "token"
@@ -444,7 +444,7 @@ def contracts(engine, st: State, id_types: typing.List[str]) -> typing.List[Cont
                      ensures=[("dry-run-returns-the-token", "implies(dry_run, result == token)"), ("pattern-stropping-applied-per-stage", f"implies(not dry_run, result == {r2})"),
                               ("identifier-characters-are-preserved", f"implies({mem('token', okstar)}, {mem('result', okstar)})"),
                               ("identifiers-stay-identifiers", f"implies({mem('token', IDENT)}, {mem('result', IDENT)})")] + digit_stage,
-                     label=f"{lang}:_strop_by_pattern,{t}", timeout=60), f"TokenEncoder._do_for_type_and_all[_strop_by_pattern,{t}]")
+                     label=f"{lang}:_strop_by_pattern,{t}", timeout=150), f"TokenEncoder._do_for_type_and_all[_strop_by_pattern,{t}]")
     # failure handlers ------------------------------------------------------------------------------------------------------------------
     SAFE = '(re.++ (str.to_re "_") (re.opt (re.++ (re.diff re.allchar (re.union (re.range "A" "Z") (str.to_re "_"))) re.all)))'
     US = '(re.++ (str.to_re "_") re.all)'
@@ -478,7 +478,7 @@ def contracts(engine, st: State, id_types: typing.List[str]) -> typing.List[Cont
                               ("result-is-not-a-reserved-identifier", f"not {kw('result')}"),
                               ("result-matches-no-reserved-pattern", f"not ({mem('result', union(pr))})" if pr else "True"),
                               ("valid-unreserved-identifiers-are-returned-unchanged", f"implies({clean}, result == token)")],
-                     label=f"{lang}:{t}", timeout=90), f"TokenEncoder.strop[{t}]")
+                     label=f"{lang}:{t}", timeout=300), f"TokenEncoder.strop[{t}]")
     return out
 
 
